@@ -4,6 +4,23 @@ import json, os, sys
 HERE = os.path.dirname(os.path.dirname(os.path.abspath(__file__)))
 
 CHECKS = {
+ "C01": dict(level="other", design="4.1",
+   technique="exact constant folding of the three length encodings over every length 0..N (incl. N=1, 255, 256), path-sensitive length typestate of every mutator, default-argument table agreement, position-ordering enumeration of the iterator guards, sink rule for own-length rescans, 3-way truth tables of the 30 relational overloads and compare_impl, object-agreement / published-equals-checked rules, cursor-window invariant of the search loops",
+   text="Structural necessary conditions only; equivalence with std::basic_string over operation histories is NOT decided. For each storage layout and capacity (packed N=1/16/255, size-field N=256, "
+        "strlen N=16; thorough adds wchar_t/char16_t) the stores of set_size/adjust_size are folded for every length 0..N and size() must decode it with NUL at data()[size()], which covers the length "
+        "byte doubling as terminator at full capacity; no derived-length read follows a possibly growing publication or terminator overwrite in any mutator; every defaulted parameter of the member "
+        "declarations equals [basic.string]'s; iterator insert/erase/replace mutate for every ordering of valid positions incl. end() and empty ranges; conversions to std::string/streams pass "
+        "(data(), size()); the 30 relational overloads and compare_impl realise the 3-way ordering; clamps and offsets use the object the position was validated against; the published length is "
+        "the checked one; cursor + remaining count is invariant in the find loops.",
+   note="Search results, shifted characters, copy/substr counts and stream extraction are not decided; trusts sa/ceval.py, sa/flow.py and the default-argument table transcribed from [basic.string]."),
+ "C02": dict(level="other", design="4.2",
+   technique="checks-before-effects path rule with a may-throw summary over the member call graph, guard-dominance (same-object) rule for position offsets and size subtractions by linear entailment, published-equals-checked rule, derived-length-after-publication typestate, exception-type/threshold tables",
+   text="Structural necessary conditions on every instantiated member with the throwing policy (packed and strlen layouts; thorough adds size-field and wchar_t), all paths: no capacity check, position "
+        "check or call to a member that may throw is evaluated after the first length publication or character write of the body; every position parameter offset into X or subtracted from X.size() is "
+        "dominated by check_index[_strict] against the same X or a branch entailing pos <= X.size(); every published length is exactly a policy-check result, a same-capacity size or 0, adjust_size only "
+        "shrinks; no offset is computed from a re-derived length after a growing publication; check_size throws length_error exactly for size > N, check_index out_of_range exactly for pos >= size, "
+        "check_index_strict = check_index(pos, size+1), at() checks first. Byte-exact extents of the shifting writes and the silent policy are NOT decided.",
+   note="Trusts the event tables in sa/fstring.py (which calls write characters, which publish a length) and sa/linear.py; iterator parameters are assumed to point into *this."),
  "C05": dict(level="other", design="4.5",
    technique="abstract-variant typestate interpretation of the lifetime machinery over the template patterns (calls followed, visit_alt/visit_alt_at applied to their lambdas, exceptional successors at every element operation, try/catch rollback), relational truth tables against [variant.relops], guard-dominance rules for get/get_if/visit/hash, case-label/alternative agreement of the instantiated dispatch switches",
    text="Decides structural necessary conditions on the template patterns (hence for every alternative set): destroy, generic_construct, emplace, assign_alt (both functor branches), assign, "
@@ -156,7 +173,7 @@ def main():
     for pid in props:
         if pid in CHECKS:
             continue
-        na.append({"property_id": pid, "reason": NA.get(pid, "check not built yet in this round; see DESIGN.md for the planned static rules")})
+        na.append({"property_id": pid, "reason": NA[pid]})
     man = {
         "version": 1,
         "setup_cmd": "python3 -m compileall -q sa check >/dev/null 2>&1; mkdir -p evidence/replay; true",
